@@ -24,7 +24,9 @@ def events_of(res):
 def run_mc(work, mcs):
     """mcs: list of (module, cfg_text, workers, timeout).  Returns summed stats; raises on spec-level failure."""
     tot = {"generated": 0, "distinct": 0, "configs": []}
-    for i, (module, cfgtxt, workers, timeout) in enumerate(mcs):
+    for i, mc in enumerate(mcs):
+        module, cfgtxt, workers, timeout = mc[:4]
+        reach = mc[4] if len(mc) > 4 else None      # reachability sanity: this "Never..." invariant must be violated
         d = work.sub("mc%d" % i)
         C.copy_specs(d)
         with open(os.path.join(d, "mc.cfg"), "w") as f:
@@ -32,6 +34,12 @@ def run_mc(work, mcs):
         t0 = time.time()
         r = C.tlc(d, module + ".tla", "mc.cfg", workers=workers, timeout=timeout, heap="24g")
         shutil.rmtree(d, ignore_errors=True)
+        if reach:
+            if r.ok or ("Invariant %s is violated" % reach) not in r.out:
+                raise C.Inconclusive("vacuity guard: %s did not reach the situation %s excludes:\n%s" % (module, reach, r.out[-2000:]))
+            tot["configs"].append({"module": module, "reached": reach, "wall_s": round(time.time() - t0, 1),
+                                   "constants": " ".join(l.strip() for l in cfgtxt.splitlines() if "=" in l)})
+            continue
         if not r.ok:
             # a counterexample on the specification alone is a specification bug: inconclusive
             raise C.Inconclusive("model checking of %s failed (specification-level):\n%s" % (module, r.out[-4000:]))
@@ -72,6 +80,14 @@ def check(prop, tier, spec):
                 continue
             seen.add(h)
             uniq.append(s)
+        # results are keyed by script id: two different scripts must never share one (a family called twice with
+        # different random choices can produce the same name)
+        ids = {}
+        for j, s in enumerate(uniq):
+            n = ids.get(s["id"], 0)
+            ids[s["id"]] = n + 1
+            if n:
+                uniq[j] = dict(s, id="%s~v%d" % (s["id"], n))
         scripts = uniq
         mcstats = run_mc(work, spec["mc"](tier)) if spec.get("mc") else {"generated": 0, "distinct": 0, "configs": []}
         binary = B.build(work)
